@@ -115,7 +115,7 @@ def gen_sessions(ctx, plan):
 
 
 # ---------------------------------------------------------------- harness
-def run_harness(ctx, reqs, race, tag, workers):
+def run_harness(ctx, reqs, race, tag, workers, timeout="200s"):
     inp = ctx.write_ndjson("srvconc_%s_in.ndjson" % tag, reqs)
     outp = os.path.join(ctx.scratch, "srvconc_%s_out.ndjson" % tag)
     env = {}
@@ -123,7 +123,7 @@ def run_harness(ctx, reqs, race, tag, workers):
         rdir = os.path.join(ctx.scratch, "race_%s" % tag)
         os.makedirs(rdir, exist_ok=True)
         env["GORACE"] = "log_path=%s/r halt_on_error=0 history_size=3" % rdir
-    ctx.harness(["srvconc", "-j", str(workers), "-timeout", "120s"], input_path=inp, output_path=outp, timeout=3000, race=race, env=env)
+    ctx.harness(["srvconc", "-j", str(workers), "-timeout", timeout], input_path=inp, output_path=outp, timeout=3000, race=race, env=env)
     outs = {o["i"]: o for o in ctx.read_ndjson(outp) if "i" in o}
     if len(outs) != len(reqs):
         raise Inconclusive("srvconc harness answered %d of %d histories" % (len(outs), len(reqs)))
@@ -374,7 +374,7 @@ def plan_of(ctx):
     if ctx.tier == "quick":
         #        clients, calls, walks per worker (x8)
         return [(2, 10, 5), (3, 9, 6), (4, 8, 6), (6, 6, 5), (8, 5, 4)], 200, 70
-    return [(2, 12, 110), (3, 10, 140), (4, 8, 140), (6, 6, 120), (8, 5, 120)], 5000, 900
+    return [(2, 12, 65), (3, 10, 72), (4, 8, 72), (6, 6, 68), (8, 5, 68)], 2400, 300
 
 
 def run(ctx):
@@ -413,6 +413,7 @@ def run(ctx):
     for i, sess in enumerate(sessions):
         reqs.append(dict(i=i, init=["g1"], sessions=sess, procs=[1, 2, 4, 8, 16][i % 5], jitter=[0, 1, 3][(i // 5) % 3],
                          seed=ctx.rng.randrange(1 << 30), fresh=40))
+    want_race = min(want_race, len(reqs))
     race_ids = {int(k * len(reqs) / want_race) for k in range(want_race)} if want_race else set()
     plain = [r for r in reqs if r["i"] not in race_ids]
     raced = [r for r in reqs if r["i"] in race_ids]
@@ -444,30 +445,31 @@ def run(ctx):
             ctx.diverge("crash %s" % o["crash"], "the server process terminated while concurrent sessions were running",
                         dict(sessions=r.get("sessions"), procs=r.get("procs"), trace=o.get("trace", "")[-3000:]))
             continue
-        if "hang" in o:
-            ctx.diverge("hang %s" % o["hang"], "concurrent sessions did not return within 120 s (twice)",
-                        dict(sessions=r.get("sessions"), procs=r.get("procs"), trace=o.get("trace", "")[-3000:]))
-            continue
         if "probe" in r:
+            if "hang" in o:
+                raise Inconclusive("StreamBatch probe did not return")
             judge_probe(ctx, r, o)
             continue
-        if o.get("deadline"):
+        if "hang" in o or o.get("deadline"):
             late.append(r)
+            continue
+        if o.get("final_deadline"):
+            ctx.notes.append("history %d: reading back the final state took more than 60 s (machine load): dropped" % r["i"])
             continue
         line = trace_line(r["i"], r["sessions"], o)
         lines.append(line)
         byid[r["i"]] = (r, o, line)
     # calls that did not return within the deadline: a hang is reported only if it happens again
     if late:
-        again = run_harness(ctx, late[:4], False, "late", 2)
+        again = run_harness(ctx, [dict(r, deadline_s=240) for r in late[:4]], False, "late", 2, timeout="600s")
         for r in late[:4]:
             o2 = again[r["i"]]
             if o2.get("deadline") or "hang" in o2:
                 ctx.diverge("hang %s" % blocked_site(o2.get("stacks") or o2.get("trace") or ""),
-                            "calls of concurrent sessions did not return within 45 s, twice (handlers blocked)",
+                            "calls of concurrent sessions did not return within 45 s and, repeated, within 240 s (handlers blocked)",
                             dict(sessions=r["sessions"], procs=r["procs"], stacks=(o2.get("stacks") or o2.get("trace") or "")[:8000]))
             else:
-                ctx.notes.append("history %d missed the 45 s deadline once and completed when repeated (machine load): dropped" % r["i"])
+                ctx.notes.append("history %d missed the 45 s deadline once and completed when repeated with 240 s (machine load): dropped" % r["i"])
         if len(late) > 4:
             ctx.notes.append("%d more histories missed the deadline and were not repeated" % (len(late) - 4))
     for sig, occ in sorted(races.items()):
@@ -562,8 +564,10 @@ def run(ctx):
 
 def validate_all(ctx, lines, canaries, chunk=500):
     accepted = {}
-    for a in range(0, len(lines), chunk):
-        accepted.update(validate(ctx, lines[a:a + chunk] + (canaries if a == 0 else []), realtime=True))
+    with ThreadPoolExecutor(max_workers=2) as ex:
+        futs = [ex.submit(validate, ctx, lines[a:a + chunk] + (canaries if a == 0 else []), True) for a in range(0, len(lines), chunk)]
+        for f in futs:
+            accepted.update(f.result())
     for cn in canaries:
         if all((cn["i"], cm) in accepted for cm in COMPS):
             raise Inconclusive("binding self-test: corrupted history %s was accepted" % cn["i"])
@@ -608,18 +612,17 @@ def judge_probe(ctx, r, o):
 def corrupt(ctx, lines):
     """three falsified copies of recorded histories; the trace spec has to reject each of them"""
     out = []
-    # (a) an acknowledged vertex write disappears from the final store
-    for l in lines:
-        st = [g for g in l["final"]["store"] if g["V"]]
-        if st:
-            c = json.loads(json.dumps(l))
-            c["i"] = "canary-lost-write"
-            for g in c["final"]["store"]:
-                if g["V"]:
-                    g["V"] = g["V"][1:]
-                    break
+    # (a) the final store holds a vertex with data nobody wrote
+    if lines:
+        c = json.loads(json.dumps(lines[0]))
+        c["i"] = "canary-corrupt-final"
+        g1 = [g for g in c["final"]["store"] if g["g"] == "g1"]
+        if g1 and g1[0]["V"]:
+            g1[0]["V"][0]["d"] = 999999
+        elif g1:
+            g1[0]["V"] = [dict(k="v", id="a", label="L1", d=999999)]
+        if g1:
             out.append(c)
-            break
     # (b) a read returns an element nobody wrote
     for l in lines:
         hit = [(ci, k) for ci, recs in enumerate(l["cl"]) for k, r in enumerate(recs)
